@@ -231,6 +231,10 @@ class ModelMixin:
         if o.k in ("ref", "val") and o.cls and (self.field_type(o.cls, name) or (self.repo.has_class(o.cls) and self.repo.attr(o.cls, name))
                                                 or (o.cls, name) in self.ext_methods or (o.cls, name) in self.ext_attrs):
             return [(st, vbool(True))]
+        if o.k in ("ref", "val"):
+            # whether an object has an attribute is a function of the object (class tags and instance dict keys of AST nodes do not change)
+            f = z3.Function("HASATTR_" + name, Val, Bool)
+            return [(st, vbool(f(box(o))))]
         return [(st, vbool(fresh("hasattr." + name, Bool)))]
 
     def bi_setattr(self, args, kw, st, node):
@@ -762,7 +766,13 @@ class ModelMixin:
         return self.m_str_split(recv, args, kw, st, node, which="RSPLIT")
 
     def m_str_count(self, recv, args, kw, st, node):
-        c = fresh("count", Int)
+        if len(args) != 1 or args[0].k != "str":
+            c = fresh("count", Int)
+            st.assume(c >= 0)
+            return [(st, vint(c))]
+        if not hasattr(self, "_COUNT"):
+            self._COUNT = z3.Function("STR_COUNT", Str, Str, Int)
+        c = self._COUNT(recv.t, args[0].t)
         st.assume(c >= 0)
         return [(st, vint(c))]
 
